@@ -204,3 +204,19 @@ func startHeartbeat() {
 		}
 	}()
 }
+
+// recvAgainIfStalled: a reply that did not arrive within the hang budget is
+// only a finding when this process was running during that time. The
+// heartbeat shows whether the whole process (or machine) was frozen; in that
+// case the read is repeated once with a fresh budget.
+func recvAgainIfStalled(c *t38.Conn, err error, startGap int64) (t38.Value, error, bool) {
+	if err != t38.ErrHang {
+		return t38.Value{}, err, false
+	}
+	time.Sleep(100 * time.Millisecond) // let the heartbeat register the gap
+	if g := maxGapNs.Load(); g > startGap && g > int64(5*time.Second) {
+		v, err2 := c.Recv()
+		return v, err2, true
+	}
+	return t38.Value{}, err, false
+}
